@@ -152,3 +152,71 @@ Proof.
   intros G Hs Hn. unfold decode_full_run.
   apply (full_run_complete white cols n _ tail r rb G Hs Hn (full_run_bound_suffices cols n Hn)).
 Qed.
+
+(* ---- the mode codes of two-dimensional coding (T.6 table 1) ---- *)
+
+From GoPdf.C06 Require Import CCITT2D.
+Open Scope N_scope.
+
+(* mode code, (state, Param as the Go table stores it: the vertical offset as an unsigned 16-bit number) *)
+Definition mode_codes : list cword :=
+  [ ([false; false; false; true], (st_pass, 0));
+    ([false; false; true], (st_horiz, 0));
+    ([true], (st_vert, 0));
+    ([false; true; true], (st_vert, 1));
+    ([false; false; false; false; true; true], (st_vert, 2));
+    ([false; false; false; false; false; true; true], (st_vert, 3));
+    ([false; true; false], (st_vert, 65535));
+    ([false; false; false; false; true; false], (st_vert, 65534));
+    ([false; false; false; false; false; true; false], (st_vert, 65533));
+    ([false; false; false; false; false; false; true], (st_ext, 0));
+    ([false; false; false; false; false; false; false], (st_eol, 0)) ].
+
+Definition main_entry (l : list bool) : N * N * N :=
+  let v := num_of l 0 in (tget mainW v, tget mainS v, tget mainP v).
+
+Definition mode_table_ok : bool :=
+  forallb (fun l =>
+    forallb (fun c => negb (is_prefix (fst c) l) || entry_is (main_entry l) c) mode_codes
+    && existsb (fun c => is_prefix (fst c) l) mode_codes) (all_bits 7)
+  && prefix_free mode_codes.
+
+Local Transparent prefix_free.
+Lemma mode_table_check : mode_table_ok = true.
+Proof. vm_compute. reflexivity. Qed.
+Global Opaque prefix_free mainW mainS mainP.
+
+Lemma mode_code c l : In c mode_codes -> length l = 7%nat -> is_prefix (fst c) l = true ->
+  main_entry l = (N.of_nat (length (fst c)), fst (snd c), snd (snd c)).
+Proof.
+  intros Hc Hl Hp. pose proof mode_table_check as Ht. unfold mode_table_ok in Ht.
+  apply andb_true_iff in Ht as [Ht _]. rewrite forallb_forall in Ht.
+  specialize (Ht l (all_bits_in _ l Hl)). apply andb_true_iff in Ht as [Ht _]. rewrite forallb_forall in Ht.
+  specialize (Ht c Hc). rewrite Hp in Ht. cbn [negb orb] in Ht. unfold entry_is in Ht.
+  destruct (main_entry l) as [[w s] p]. apply andb_true_iff in Ht as [Ht Hpp]. apply andb_true_iff in Ht as [Hw Hs].
+  apply N.eqb_eq in Hw, Hs, Hpp. subst. reflexivity.
+Qed.
+
+(* reading a mode code: the 7-bit window is looked up and the code's bits are consumed *)
+Lemma mode_read c tail r rb :
+  In c mode_codes -> good r rb -> real r rb = fst c ++ tail ->
+  exists rb1, let '(v, r1) := peek 7 r in
+    tget mainS v = fst (snd c) /\ tget mainP v = snd (snd c) /\
+    good (consume (N.to_nat (tget mainW v)) r1) rb1 /\ real (consume (N.to_nat (tget mainW v)) r1) rb1 = tail.
+Proof.
+  intros Hc G Hs.
+  assert (Hlen : (1 <= length (fst c) <= 7)%nat).
+  { unfold mode_codes in Hc. cbn [In] in Hc. repeat (destruct Hc as [<-|Hc]; [cbn; lia|]). contradiction. }
+  destruct (peek_good 7 r rb G ltac:(lia)) as (rb1 & Pv & G1 & R1).
+  destruct (peek 7 r) as [v r1]. cbn [fst snd] in *.
+  pose proof (mode_code c (firstn 7 (real r rb ++ repeat false 7)) Hc) as Ht.
+  rewrite firstn_length_le in Ht by (rewrite app_length, repeat_length; lia). specialize (Ht eq_refl).
+  rewrite Hs, <- app_assoc in Ht. specialize (Ht (is_prefix_app (fst c) (tail ++ repeat false 7) 7 ltac:(lia))).
+  unfold main_entry in Ht. rewrite Hs, <- app_assoc in Pv. rewrite <- Pv in Ht.
+  apply pair_equal_spec in Ht as [Ht1 Ht3]. apply pair_equal_spec in Ht1 as [Ht1 Ht2].
+  rewrite Ht1, Nat2N.id.
+  destruct (consume_good (length (fst c)) r1 rb1 G1 ltac:(lia)) as (rb2 & G2 & R2).
+  { rewrite R1, Hs, app_length. lia. }
+  exists rb2. split; [assumption|]. split; [assumption|]. split; [assumption|].
+  rewrite R2, R1, Hs, skipn_app, skipn_all, Nat.sub_diag. reflexivity.
+Qed.
